@@ -8,6 +8,7 @@ from pony.orm import db_session, select, commit, rollback, flush
 from .. import simdb, whitebox
 from ..harness import hsh
 from ..seqschema import pool
+from ..prng import Rng
 from ..sessmodel import Refuse, MObj
 from . import seq as S
 from . import seq_detached
@@ -247,6 +248,110 @@ class Interp(seq_detached.DetachedMixin, S.SeqRun):
             self._note_keys_taken(e, self.view.objs[mo.mid])
         return st
 
+    def op_setmix(self, a, b, c):
+        """obj.set(...) with plain values, a reference and one or two collections in one call: either every
+        part is applied or (a later part is refused) none of them"""
+        mo = self.pick(a)
+        if mo is None:
+            return None
+        r = Rng(0, 'setmix', a, b, c)      # a pure function of the operation's arguments (shrinking keeps it)
+
+        def can_refuse(o):
+            return [sa for sa in self.schema.by_name[o.ent].sets() if not sa.reverse.is_set and sa.reverse.required
+                    and not sa.cascade and self.view.partners(sa, o.mid)]
+        hot = [o for o in self.live_sorted() if can_refuse(o)]
+        if hot and r.chance(0.6):
+            # prefer an object one of whose collections refuses to shrink: a compound call on it can fail late
+            mo = hot[r.below(len(hot))]
+        e = self.schema.by_name[mo.ent]
+        sets = e.sets()
+        if not sets:
+            return None
+        touched = None
+        if r.chance(0.6):
+            alive, touched = self.pending_prelude(mo, r)
+            if not alive:
+                return None
+        parts = []      # (kind, attr, value) in keyword order
+        scal = [x for x in e.scalars() if not x.is_pk]
+        mode = r.below(4)       # 0: collections only, 1: + plain values, 2: + reference, 3: everything
+        for at in r.sample(scal, min(len(scal), 1 + r.below(2)) if mode in (1, 3) else 0):
+            p = pool(e.name, at.name)
+            parts.append(('val', at, p[r.below(len(p))]))
+        tos = e.to_ones()
+        if tos and mode in (2, 3):
+            ra = tos[r.below(len(tos))]
+            tgt = None if r.chance(0.25) else self.pick(r.below(1000), ra.rel)
+            tmid = tgt.mid if tgt is not None and tgt.mid != mo.mid else None
+            parts.append(('one', ra, tmid))
+        chosen = r.sample(sets, min(len(sets), 1 + r.below(2)))
+        if touched is not None and touched not in chosen and r.chance(0.8):
+            chosen.insert(0, touched)       # the collection that has the pending change is assigned as well
+        for sa in can_refuse(mo):
+            if sa not in chosen and r.chance(0.8):
+                chosen.append(sa)
+        for sa in chosen:
+            cands = [o.mid for o in self.live_sorted(sa.rel) if not (sa.rel == mo.ent and o.mid == mo.mid)]
+            cur = sorted(self.view.partners(sa, mo.mid))
+            items = set(x for x in cur if r.chance(0.5))
+            for i in range(r.below(3)):
+                if cands:
+                    items.add(cands[r.below(len(cands))])
+            parts.append(('set', sa, sorted(items)))
+        if r.chance(0.5):
+            r.shuffle(parts)
+        refusing = [p for p in parts if p[0] == 'set' and not p[1].reverse.is_set and p[1].reverse.required
+                    and not p[1].cascade and len(p[2]) < len(self.view.partners(p[1], mo.mid))]
+        if refusing and r.chance(0.7):
+            # the part that will be refused comes last: everything before it has to be taken back
+            parts.remove(refusing[0])
+            parts.append(refusing[0])
+
+        def show(kind, v):
+            return repr(v) if kind == 'val' else ('#%s' % v if kind == 'one' else repr(['#%d' % i for i in v]))
+        desc = 'setmix %s#%d.set(%s)' % (mo.ent, mo.mid, ', '.join('%s=%s' % (at.name, show(k, v)) for k, at, v in parts))
+        old_vals = dict(mo.vals)
+        mids = [mo.mid]
+        for k, at, v in parts:
+            if k == 'one' and v:
+                mids.append(v)
+            elif k == 'set':
+                mids.extend(v)
+
+        def pony():
+            kw = {}
+            for k, at, v in parts:
+                if k == 'val':
+                    kw[at.name] = v
+                elif k == 'one':
+                    kw[at.name] = self.handle(v) if v else None
+                else:
+                    kw[at.name] = [self.handle(i) for i in v]
+            self.handle(mo.mid).set(**kw)
+
+        def model(v):
+            # Entity.set applies plain values and references first, collections afterwards, each group in keyword order
+            for k, at, val in parts:
+                if k == 'val':
+                    v.objs[mo.mid].vals[at.name] = val
+            for k, at, val in parts:
+                if k == 'one':
+                    v.set_to_one(mo.mid, at, val)
+            for k, at, val in parts:
+                if k == 'set':
+                    v.coll_assign(mo.mid, at, val)
+
+        newvals = dict(mo.vals)
+        for k, at, v in parts:
+            if k == 'val':
+                newvals[at.name] = v
+        dup = self._would_duplicate(e, mo.mid, newvals)
+        st, res = self.modify(desc, pony, model, must_fail=dup, mids=mids)
+        if st == 'ok':
+            self._note_keys_released(e, old_vals)
+            self._note_keys_taken(e, self.view.objs[mo.mid])
+        return st
+
     def op_rel(self, a, b, c):
         mo = self.pick(a)
         if mo is None:
@@ -340,6 +445,8 @@ class Interp(seq_detached.DetachedMixin, S.SeqRun):
         base = 'r_coll %s#%d.%s contains #%d' % (mo.ent, mo.mid, sa.name, it)
 
         def contains(tag):
+            if self.knobs.get('hook_mode') in ('modify', 'create', 'link'):
+                self.op_flush()
             h = self.handle_or_poison(mo.mid)
             ih = self.handle_or_poison(it)
             ok, got = self.read(base + tag, lambda: ih in getattr(h, sa.name))
@@ -375,6 +482,47 @@ class Interp(seq_detached.DetachedMixin, S.SeqRun):
         if (c >> 5) % 2:
             self.op_flush()
             contains(' (after %s and flush)' % kind)
+        return st
+
+    def op_seq_probe(self, a, b, c):
+        """change one link of a collection, ask the collection a question (emptiness, size, content) while the
+        change is still pending, then take the change back: the answers and what is finally stored must follow
+        the session view whether or not the collection was loaded"""
+        owners = [o for o in self.live_sorted() if self.schema.by_name[o.ent].sets()]
+        if not owners:
+            return None
+        mo = owners[a % len(owners)]
+        e = self.schema.by_name[mo.ent]
+        sa = e.sets()[b % len(e.sets())]
+        cands = [o.mid for o in self.live_sorted(sa.rel) if not (sa.rel == mo.ent and o.mid == mo.mid)]
+        cur = sorted(self.view.partners(sa, mo.mid))
+        src = cur if (cur and c % 3) else cands
+        if not src:
+            return None
+        it = src[(c >> 9) % len(src)]
+
+        def step(kind):
+            desc = '%s %s#%d.%s [\'#%d\']' % (kind, mo.ent, mo.mid, sa.name, it)
+
+            def pony():
+                coll = getattr(self.handle(mo.mid), sa.name)
+                (coll.remove if kind == 'remove' else coll.add)(self.handle(it))
+
+            def model(v):
+                (v.coll_remove if kind == 'remove' else v.coll_add)(mo.mid, sa, [it])
+            return self.modify(desc, pony, model, mids=[mo.mid, it])[0]
+
+        first = 'remove' if it in cur else 'add'
+        st = step(first)
+        if self.view.objs[it].deleted or self.view.objs[mo.mid].deleted:
+            return st
+        self._probe_coll(mo, sa, (c >> 2) % 6, c >> 5, tag=' [after pending %s of #%d]' % (first, it))
+        if (c >> 6) % 3:
+            step('add' if first == 'remove' else 'remove')
+            if self.view.objs[it].deleted or self.view.objs[mo.mid].deleted:
+                return st
+            if (c >> 8) % 2:
+                self._probe_coll(mo, sa, (c >> 4) % 6, c >> 3, tag=' [after taking it back]')
         return st
 
     def op_new_rawfk(self, a, b, c):
@@ -474,9 +622,42 @@ class Interp(seq_detached.DetachedMixin, S.SeqRun):
                 rel_mids[ra.name] = tgt.mid
         return self._create(te, kw, rel_mids, {}, via=(mo.mid, sa))
 
+    def pending_prelude(self, mo, r):
+        """Leave an unflushed change pending right before a compound call (obj.set(...), delete()) on mo: every
+        live object is fetched first, so that no query (auto-flush) comes between the pending change and the
+        call.  False when mo did not survive."""
+        for o in self.live_sorted():
+            self.handle_or_poison(o.mid)
+        k = r.below(6)
+        touched = None
+        if k == 0:
+            self.op_set(r.below(1000), r.below(1000), r.below(1000))
+        elif k == 1:
+            self.op_rel(r.below(1000), r.below(1000), r.below(1000))
+        else:
+            owners = [o for o in self.live_sorted() if self.schema.by_name[o.ent].sets()]
+            ids = [o.mid for o in owners]
+            if mo.mid in ids:
+                sets = self.schema.by_name[mo.ent].sets()
+                b = r.below(len(sets))
+                if r.chance(0.6):
+                    # prefer a collection that has something to remove
+                    full = [i for i, sa in enumerate(sets) if self.view.partners(sa, mo.mid)]
+                    if full:
+                        b = full[r.below(len(full))]
+                touched = sets[b]
+                kind = 'add' if (k >= 4 or not self.view.partners(touched, mo.mid)) else 'remove'
+                c = r.below(1000)
+                if kind == 'remove' and c % 4 == 0:
+                    c += 1      # op_coll: take the item from the current content
+                self.op_coll(kind, ids.index(mo.mid), b, c)
+        return (not self.view.objs[mo.mid].deleted), touched
+
     def op_del(self, a, b, c):
         mo = self.pick(a)
         if mo is None:
+            return None
+        if c % 3 == 0 and not self.pending_prelude(mo, Rng(0, 'del', a, b, c))[0]:
             return None
         desc = 'del %s#%d' % (mo.ent, mo.mid)
         before = dict((o.mid, dict(o.vals)) for o in self.view.live())
@@ -695,10 +876,18 @@ class Interp(seq_detached.DetachedMixin, S.SeqRun):
         mo = owners[a % len(owners)]
         e = self.schema.by_name[mo.ent]
         sa = e.sets()[b % len(e.sets())]
+        self._probe_coll(mo, sa, c % 6, c)
+
+    def _probe_coll(self, mo, sa, k, c, tag=''):
+        if self.knobs.get('hook_mode') in ('modify', 'create', 'link'):
+            # hooks that edit data run inside the auto-flush a read may trigger: let that flush happen first, the
+            # expected answer is computed from the model afterwards
+            self.op_flush()
+            if self.view.objs[mo.mid].deleted:
+                return
         exp = sorted(self.view.partners(sa, mo.mid))
         h = self.handle_or_poison(mo.mid)
-        k = c % 6
-        base = 'r_coll %s#%d.%s' % (mo.ent, mo.mid, sa.name)
+        base = 'r_coll %s#%d.%s%s' % (mo.ent, mo.mid, sa.name, tag)
         if k == 0:
             ok, got = self.read(base + ' len', lambda: len(getattr(h, sa.name)))
             if ok:
@@ -997,6 +1186,10 @@ class Interp(seq_detached.DetachedMixin, S.SeqRun):
             self.op_setpk(a, b, c)
         elif name == 'setmany':
             self.op_setmany(a, b, c)
+        elif name == 'setmix':
+            self.op_setmix(a, b, c)
+        elif name == 'seq_probe':
+            self.op_seq_probe(a, b, c)
         elif name == 'rel':
             self.op_rel(a, b, c)
         elif name in ('add', 'remove', 'clear', 'assign'):
